@@ -19,10 +19,10 @@ ENTRIES = [
 def run(ctx):
     ctx.do(R.rule_c1)
     ctx.do(R.rule_chart_slot)
-    ctx.do(n1, ["geometry_tools/projective.py"])
+    ctx.do(n1, ["geometry_tools/projective.py"], scope=ctx.scope(ENTRIES))
     ctx.do(PR.rule_bm1)
     ctx.do(SH.rule_sh4)
-    ctx.do(SI.rule_eig1)
+    ctx.do(SI.rule_eig1, only={"Transformation.eigenvector", "Transformation.diagonalize"})
     ctx.do(u1, ENTRIES, min_functions=15)
     ctx.r.assume("affine maps, translations, intersections and eigenvectors "
                  "are numerical clauses and not decided")
